@@ -21,7 +21,8 @@ RULE = (
     "astral code points included), with constraints and query expressions over concat / substr / replace / length / index-of / to-int / "
     "from-int / contains / prefix / suffix / equality, extras, branch, simplify, downsize; oracle: the explicit list of domain "
     "assignments filtered by the constraints with the Python SMT-LIB string semantics; a query on which Z3's sequence solver gives up "
-    "(claripy solver error, or an overrun interrupted by the harness watchdog) is counted, not judged, and the history continues. "
+    "(claripy solver error, or an overrun interrupted by the harness watchdog) is counted, not judged, and the history continues; a failure is reported only if one of two immediate re-runs of the case on a "
+    "fresh solver shows it again (otherwise counted as unreproduced). "
     "Non-trivial: >=2 queries on the same expression separated by an add or differing in signed/extra, or a query after an "
     "unsat-making add, or a query with extra constraints; distinct by SHA-1 of (frontend, reuse, history)."
 )
@@ -126,9 +127,22 @@ def record_str(ctx, case, res):
         ctx.count("strstat:" + k, v)
     seen = set()
     for fp, obs in res.fails:
-        if fp not in seen:
-            seen.add(fp)
+        if fp in seen:
+            continue
+        seen.add(fp)
+        # Z3's sequence solver is driven with timeouts and, rarely, the watchdog: a report has to come with an input that
+        # reproduces, so a failure counts only if one of two immediate re-runs on a fresh solver shows it again
+        again = False
+        for _ in range(2):
+            exprcheck.reset_caches()
+            if any(f == fp for f, _o in strm.run_case(case["frontend"], case).fails):
+                again = True
+                break
+        if again:
             ctx.fail(fp, case, obs)
+        else:
+            ctx.count("unreproduced_string_failure")
+            ctx.count("unreproduced:" + fp.split(":")[-1])
 
 
 def run_shard(shard, ctx):
